@@ -295,6 +295,7 @@ int ilu_ddrop_row(
 			fflush(stdout);
 #endif
 			nzp++;
+			SLU_VERIF_EVENT(3, first + j, 0);
 		    }
 		    break;
 		case SMILU_2:
